@@ -1,5 +1,6 @@
 import SJ.Properties.C12
 import SJ.Proofs.SourceLevelA
+import SJ.Proofs.SourceLevelD
 set_option linter.unusedVariables false
 /-
 C12 — source level. The theorems of Properties/C12.lean composed with the source ties of DESIGN §6.3: each statement
@@ -127,5 +128,98 @@ theorem C12_source_bulk (pj : PJ) (kind : View.NumKind) (ws : List (UInt64 × UI
     | .panic => False
     | .other => False :=
   SJ.SourceLevelA.C12_source_bulk pj kind ws a fuel F hn hl hf hlim hF
+
+open SJ.Generated SJ.GoSem SJ.GoIter SJ.Layout SJ.SourceLevelD SJ.Tables SJ.WalkLayout SJ.Lookup SJ.GoObject SJ.GoFind SJ.GoFindElem in
+/-- **`Iter.FindElement` on an iterator standing on an object, source level** (`C12_findPath` through the public entry
+    point).  On a tape that holds the located object `.obj p e ms` (gaps anywhere), with the receiver standing on it
+    (`OnNode`: what `ForEach`, `Root`, `Advance`/`AdvanceInto` or a previous `FindElement` hand out), running
+    `i.FindElement(dst, key, rest...)` of `parsed_json.go` (as printed from /repo) — which copies the receiver, builds the
+    object's view with `Iter.Object` and hands it to `Object.FindPath` with the caller's `dst` and its nil flag:
+    * if taking the FIRST member with each key of the path in turn reaches a value `v` (`pathSpec … = .ok v`): returns
+      `(dst, nil)` with `dst` non-nil, `dst.Name` = the last key of the path, `dst.Type` = the type of `v`, `dst.Iter` = the
+      cursor restricted to the words of `v` and standing on it;
+    * if some key is absent, or the path continues through a value that is not an object (`pathSpec … = .error _`):
+      returns a non-nil error (and a non-nil `dst` when the caller supplied one);
+    * nothing else happens: no panic, no divergence, never stuck.
+    The tape and the receiver `i` are untouched.
+    Discharged: the model fuel, `i.off < 2^63` (from `off ≤ lim`), the exception of `FEPost` ("`dst.Iter` left alone at the
+    end of the view": the cursor on an `Ok` value is never the zero iterator).  Kept: `BufOK pj` (buffer lengths are Go
+    `int`s), `i.lim ≤ len(tape)` (`OnNode` bounds the view from below only), `i.lim < 2^63` (a Go `int`; the model's field
+    is a `Nat`), `key.size < 2^63` for every key (of the property), the interpreter's budget `4·lim + 17`.  Not stated (the
+    tie does not distinguish error values): WHICH error is returned, although `pathSpec` names it. -/
+theorem C12_source_findElement_on (pj : PJ) (p e : Nat) (ms : LMems) (i : Iter) (key : Bytes) (rest : List Bytes)
+    (hkeys : ∀ k ∈ key :: rest, k.size < 2 ^ 63) (hok : Ok pj (.obj p e ms)) (hon : OnNode pj (.obj p e ms) i)
+    (hb : BufOK pj) (hl : i.lim ≤ pj.tape.size) (hlim : i.lim < 2^63) (nil : Bool) (nm tv : Val) (d0 : Iter) (extra : Env)
+    (fuel : Nat) (hf : 4 * i.lim + 17 ≤ fuel) :
+    match pathSpec key rest ms with
+    | .ok v =>
+      ∃ e', runFun goFuns goIter_FindElement fuel ⟨feStore pj i (key :: rest) nil nm tv d0 extra, pj.tape⟩ =
+          .ret ⟨e', pj.tape⟩ [.bool true, .bool false] ∧
+        e'.get "dst.Type" = some (.u8 (tagToTypeSpec (tagOfL v))) ∧
+        e'.get "dst.Name" = some (.bytes (rest.getLastD key)) ∧
+        iterAt e' "dst.Iter" = some (elemIter pj v) ∧ iterAt e' "i" = some i ∧ Ok pj v ∧ OnNode pj v (elemIter pj v)
+    | .error _ =>
+      ∃ e' b, runFun goFuns goIter_FindElement fuel ⟨feStore pj i (key :: rest) nil nm tv d0 extra, pj.tape⟩ =
+          .ret ⟨e', pj.tape⟩ [.bool b, .bool true] ∧ (nil = false → b = true) ∧ iterAt e' "i" = some i
+    | .panic => False
+    | .diverge => False :=
+  SJ.SourceLevelD.C12_source_findElement_on pj p e ms i key rest hkeys hok hon hb hl hlim nil nm tv d0 extra fuel hf
+
+open SJ.Generated SJ.GoSem SJ.GoIter SJ.Layout SJ.SourceLevelD SJ.Tables SJ.WalkLayout SJ.Lookup SJ.GoObject SJ.GoFind SJ.GoFindElem in
+/-- **`Iter.FindElement` from the document's iterator, source level.**  On a tape denoting a document whose (first) root
+    value is the object `.obj p e ms` (`OkRoots`: root entries, gaps anywhere), running `i.FindElement(dst, key, rest...)`
+    of `parsed_json.go` (as printed from /repo) from the iterator `ParsedJson.Iter()` builds (`Iter.ofPJ`: view = the whole
+    tape, offset 0, nothing read yet) — the loop of `FindElement` steps over the end-of-view state with `AdvanceInto`, into
+    the root entry with `Root` on its own copy, builds the object's view and calls `Object.FindPath` — returns the element
+    at that path (type, name = the last key, an iterator restricted to the value and standing on it) and `nil` when
+    `pathSpec` finds it, and a non-nil error when it does not; no panic, no divergence; tape and receiver untouched.
+    Discharged: everything about the receiver (`lim = len(tape)`, `off = 0`), the model fuel.  Kept: `BufOK pj`,
+    `len(tape) < 2^63` (a Go `int`), `key.size < 2^63` for every key, the interpreter's budget `4·len(tape) + 17`. -/
+theorem C12_source_findElement (pj : PJ) (p e : Nat) (ms : LMems) (vs : List LVal) (key : Bytes) (rest : List Bytes)
+    (hkeys : ∀ k ∈ key :: rest, k.size < 2 ^ 63) (hroots : OkRoots pj (.obj p e ms :: vs) 0) (hb : BufOK pj)
+    (hsz : pj.tape.size < 2^63) (nil : Bool) (nm tv : Val) (d0 : Iter) (extra : Env) (fuel : Nat)
+    (hf : 4 * pj.tape.size + 17 ≤ fuel) :
+    match pathSpec key rest ms with
+    | .ok v =>
+      ∃ e', runFun goFuns goIter_FindElement fuel
+            ⟨feStore pj (Iter.ofPJ pj) (key :: rest) nil nm tv d0 extra, pj.tape⟩ =
+          .ret ⟨e', pj.tape⟩ [.bool true, .bool false] ∧
+        e'.get "dst.Type" = some (.u8 (tagToTypeSpec (tagOfL v))) ∧
+        e'.get "dst.Name" = some (.bytes (rest.getLastD key)) ∧
+        iterAt e' "dst.Iter" = some (elemIter pj v) ∧ iterAt e' "i" = some (Iter.ofPJ pj) ∧ Ok pj v ∧
+        OnNode pj v (elemIter pj v)
+    | .error _ =>
+      ∃ e' b, runFun goFuns goIter_FindElement fuel
+            ⟨feStore pj (Iter.ofPJ pj) (key :: rest) nil nm tv d0 extra, pj.tape⟩ =
+          .ret ⟨e', pj.tape⟩ [.bool b, .bool true] ∧ (nil = false → b = true) ∧ iterAt e' "i" = some (Iter.ofPJ pj)
+    | .panic => False
+    | .diverge => False :=
+  SJ.SourceLevelD.C12_source_findElement pj p e ms vs key rest hkeys hroots hb hsz nil nm tv d0 extra fuel hf
+
+open SJ.Generated SJ.GoSem SJ.GoIter SJ.Layout SJ.SourceLevelD SJ.Tables SJ.WalkLayout SJ.Lookup SJ.GoObject SJ.GoArrStr in
+/-- **`Array.AsString`, source level.**  There is no property theorem about `AsString` in `Properties/C12`; the statement
+    is made against the document directly (`asString_elems` above is the model-level half, proved here).  On a tape that
+    holds the located array `.arr p e es` (gaps anywhere), running `Array.AsString()` of `parsed_array.go` (as printed from
+    /repo: the loop `AdvanceIter` / `switch t` / `elem.String()` / `append`) on the array's view (`off = p+1`, `lim = e`,
+    what `Iter.Array` returns):
+    * if every element is a string (`strsOf es = some ss`, i.e. the array DENOTES the array of strings `ss`:
+      `strsOf_erase`): returns exactly those strings, in order, and `nil` — each string
+      being the bytes the tape denotes for it (from `Message` or the string buffer, as `Ok` reads them); the tape is untouched;
+    * if some element is not a string (`strsOf es = none`): returns `nil` and a non-nil error;
+    * nothing else: no panic, no divergence, never stuck.
+    Tie used: `GoArrStr.asString_sim`, the theorem behind the first half of `C12_string_accessors_follow_source` (the bundle
+    asks for the larger loop budget of `AsStringCvt`, a function of the tape's float words; `AsString` alone needs
+    `fuelOf + lim + 13`).  Discharged: `v.lim ≤ len(tape)` (the closing bracket of an `Ok` array is a word of the tape), the
+    model fuel.  Kept: `BufOK pj` (Go `int` buffer lengths) and the interpreter's budget. -/
+theorem C12_source_asString (pj : PJ) (p e : Nat) (es : LVals) (hok : Ok pj (.arr p e es)) (hb : BufOK pj) (extra : Env)
+    (F : Nat) (hF : 3 * pj.tape.size + 29 ≤ F) :
+    match strsOf es with
+    | some ss =>
+      ∃ st, runFun goFuns goArray_AsString F ⟨arrStore pj { lim := e, off := p + 1 } extra, pj.tape⟩ =
+          .ret st [.keys (ss.map List.toArray), .bool false] ∧ st.tape = pj.tape
+    | none =>
+      ∃ st, runFun goFuns goArray_AsString F ⟨arrStore pj { lim := e, off := p + 1 } extra, pj.tape⟩ =
+          .ret st [.keys [], .bool true] :=
+  SJ.SourceLevelD.C12_source_asString pj p e es hok hb extra F hF
 
 end SJ.Properties.C12
